@@ -591,7 +591,7 @@ def step_join(g: G, schemas: Dict[int, Sch], a: int, b: int):
         if sa.cols[c]["type"] != sb.cols[c]["type"]:
             return None
         if sa.cols[c]["zn"] or sb.cols[c]["zn"]:
-            pass
+            return None  # a zero/null tolerant column must not feed the COALESCE of a shared column
 
     def keyable(s, c):
         ci = s.cols[c]
